@@ -95,7 +95,7 @@ pub fn check(c: &Case) -> Verdict {
 }
 
 fn run(eng: &Engine, a: &Args) {
-    let n = if a.tier == Tier::Quick { 400 } else { 6000 };
+    let n = if a.tier == Tier::Quick { 400 } else { 3000 };
     let tier = a.tier;
     eng.explore("csvdump-vs-model", scaled(n, a), move || strategy(tier), check);
     // fixed wide cases: one transaction with 66 000 outputs / 0x10001 inputs (indices and counts beyond 16 bits)
